@@ -5,6 +5,7 @@ from .. import roles as R
 META = {
     "technique": "origin terms through closures + field write-site enumeration + who-may-call on MIR",
     "explanation": (
+        "R-C18.4: the factory inside the caller's create options is dropped before the assigner's answer is installed (options cloned from a filtered keyspace). "
         "Decides the assignment plumbing: (1) at both consultation sites (Database::keyspace on creation, "
         "recover_keyspaces on reopen) the assigner is called with the name of the very keyspace being created/recovered "
         "(the name parameter, resp. resolve_id of the directory's id) and its Some result flows through "
